@@ -14,6 +14,8 @@ FREE = [("sym", "x", ()), ("sym", "y", ("real",)), ("sym", "z", ("positive",)), 
 IDX = [("sym", "i", ()), ("sym", "j", ()), ("sym", "k", ("integer",)), ("sym", "l", ())]
 FUNCS = {"f:f": (1, 3), "f:g": (1, 2), "f:h": (2, 2)}
 VALUES = [(-1, 1), (-1, 2), (0, 1), (1, 2), (1, 1), (3, 2), (2, 1), (3, 1)]
+# symbols that the generator puts into index POOLS only (never into a summand)
+POOLSYM = [("sym", "n", ()), ("sym", "m", ("integer",))]
 
 
 def rat(rng):
@@ -55,8 +57,60 @@ def gen_poly(rng, syms, depth, small=False):
     return terms[0] if len(terms) == 1 else ("add", terms)
 
 
+def walk_syms(t, acc, pools: bool, summands: bool):
+    """Symbols of a term, separately for pool values and for everything else."""
+    k = t[0]
+    if k == "sym":
+        if summands:
+            acc.add(t)
+    elif k in {"add", "mul"}:
+        for a in t[1]:
+            walk_syms(a, acc, pools, summands)
+    elif k == "pow":
+        walk_syms(t[1], acc, pools, summands)
+    elif k in {"app", "idx", "node"}:
+        for a in t[2]:
+            walk_syms(a, acc, pools, summands)
+    elif k == "psum":
+        walk_syms(t[1], acc, pools, summands)
+        if pools:
+            for _, vals in t[2]:
+                for v in vals:
+                    acc |= m1.symbols_of(v)
+    return acc
+
+
+def pool_symbols(t) -> set:
+    return walk_syms(t, set(), True, False)
+
+
+def summand_symbols(t) -> set:
+    return walk_syms(t, set(), False, True)
+
+
+def gen_pool_value(rng, allowed, outer_allowed, stats):
+    """One pool value: a rational, or a TERM over `allowed` symbols / outer summation indices."""
+    r = rng.random()
+    if r < 0.5 or not (allowed or outer_allowed):
+        p, q = rng.choice(VALUES)
+        return ("rat", p, q)
+    stats["symbolic_pool_values"] = stats.get("symbolic_pool_values", 0) + 1
+    if outer_allowed and r < 0.80:
+        o = rng.choice(outer_allowed)
+        stats["pool_values_mentioning_an_outer_index"] = stats.get("pool_values_mentioning_an_outer_index", 0) + 1
+        return rng.choice([o, ("add", [o, rat(rng)]), ("mul", [("rat", 2, 1), o]), ("add", [o, rng.choice(allowed)]) if allowed else o])
+    if not allowed:
+        p, q = rng.choice(VALUES)
+        return ("rat", p, q)
+    a = rng.choice(allowed)
+    b = rng.choice(allowed)
+    return rng.choice([a, a, ("add", [a, rat(rng)]), ("mul", [rat(rng), a]), ("add", [a, b]) if a != b else a, ("pow", a, 2)])
+
+
 def gen_psum(rng, nest, outer, stats):
-    """A pool sum at nesting level `nest` (1..3); `outer` = index symbols bound further out."""
+    """A pool sum at nesting level `nest` (1..3); `outer` = index symbols bound further out.
+    Pool values are rationals or terms (pool-only symbols, free symbols that also occur in the summand,
+    outer summation indices, compound terms)."""
     n_idx = rng.choice([0, 1, 1, 2, 2, 2, 3, 3, 4])
     idxs = rng.sample(IDX, n_idx)
     dup = False
@@ -64,11 +118,6 @@ def gen_psum(rng, nest, outer, stats):
         idxs[-1] = idxs[0]
         dup = True
     max_pool = 3 if n_idx <= 2 else 2
-    binders = []
-    for s in idxs:
-        size = rng.choice([1, 1, 2, 2, 3][: 3 + max_pool - 1]) if max_pool == 3 else rng.choice([1, 2, 2])
-        pool = [rng.choice(VALUES) for _ in range(size)]
-        binders.append((s, pool))
     used = [s for s in dict.fromkeys(idxs) if rng.random() < 0.8]
     frees = rng.sample(FREE, rng.randint(0, 2))
     visible = used + frees + [s for s in outer if rng.random() < 0.5]
@@ -81,11 +130,34 @@ def gen_psum(rng, nest, outer, stats):
         # the summand IS a pool sum (directly nested), or the nested sum sits in a sum / product
         body = inner if r < 0.3 else ("add", [body, inner]) if r < 0.65 else ("mul", [gen_atom(rng, visible, 1), inner])
         stats["directly_nested"] = stats.get("directly_nested", 0) + int(r < 0.3)
+    # pools: values may mention pool-only symbols, free symbols and OUTER indices, but (well-formed case) neither an
+    # index of this sum nor a symbol bound inside the summand; a few ill-formed ones are generated on purpose
+    taken = set(idxs) | bound_syms(body)
+    allowed = [s for s in POOLSYM + FREE if s not in taken]
+    outer_allowed = [s for s in outer if s not in taken]
+    ill = rng.random() < 0.04 and bool(taken)
+    binders = []
+    for s in idxs:
+        size = rng.choice([1, 1, 2, 2, 3][: 3 + max_pool - 1]) if max_pool == 3 else rng.choice([1, 2, 2])
+        pool = [gen_pool_value(rng, allowed, outer_allowed, stats) for _ in range(size)]
+        if ill and rng.random() < 0.5:
+            pool[rng.randrange(size)] = rng.choice(sorted(taken))
+            stats["ill_formed_pools_(sibling_index_or_captured_symbol)"] = stats.get("ill_formed_pools_(sibling_index_or_captured_symbol)", 0) + 1
+        binders.append((s, pool))
     stats["n_idx"][n_idx] = stats["n_idx"].get(n_idx, 0) + 1
     stats["singleton_pools"] += sum(1 for _, p in binders if len(p) == 1)
-    stats["duplicate_value_pools"] += sum(1 for _, p in binders if len(set(p)) < len(p))
+    stats["duplicate_value_pools"] += sum(1 for _, p in binders if len(set(map(m1.show, p))) < len(p))
     stats["duplicate_index_symbols"] += int(dup)
     stats["unused_indices"] += sum(1 for s in dict.fromkeys(idxs) if s not in used)
+    psyms = set()
+    for _, p in binders:
+        for v in p:
+            psyms |= m1.symbols_of(v)
+    bsyms = m1.symbols_of(body)
+    stats["sums_with_a_symbol_only_in_a_pool"] = stats.get("sums_with_a_symbol_only_in_a_pool", 0) + int(bool(psyms - bsyms))
+    stats["sums_with_a_symbol_in_pool_and_summand"] = stats.get("sums_with_a_symbol_in_pool_and_summand", 0) + int(bool(psyms & bsyms))
+    stats["sums_whose_pool_mentions_an_outer_index_absent_from_the_summand"] = (
+        stats.get("sums_whose_pool_mentions_an_outer_index_absent_from_the_summand", 0) + int(bool((psyms & set(outer)) - bsyms)))
     return ("psum", body, binders), {"dup": dup, "nested": nested}
 
 
@@ -128,8 +200,10 @@ def bound_syms(t, acc=None) -> set:
         for a in t[2]:
             bound_syms(a, acc)
     elif k == "psum":
-        for s, _ in t[2]:
+        for s, vals in t[2]:
             acc.add(s)
+            for v in vals:
+                bound_syms(v, acc)
         bound_syms(t[1], acc)
     return acc
 
@@ -167,14 +241,23 @@ def make_case(term, ps, rng):
         subs.append({"kind": "capture", "pairs": [(x, gen_poly(rng, [rng.choice(bound), *others[:1]], 1, small=True))]})
     y = rng.choice(others)
     subs.append({"kind": "sequence", "pairs": [(x, ("add", [y, ("rat", 1, 1)])), (y, rat(rng))]})
+    # symbols that occur in a POOL (only there, or in the summand as well): they are free symbols of the sum
+    psyms = sorted(pool_symbols(term) - set(bound))
+    ssyms = summand_symbols(term)
+    for z in rng.sample(psyms, min(2, len(psyms))):
+        where = "pool+summand" if z in ssyms else "pool-only"
+        subs.append({"kind": f"{where}->rat", "pairs": [(z, rat(rng))]})
+        subs.append({"kind": f"{where}->poly", "pairs": [(z, gen_poly(rng, [s for s in frees if s != z], 1, small=True))]})
     xr = []
     m = {x: gen_poly(rng, others, 1, small=True)}
     if top_idx and rng.random() < 0.7:
         m[rng.choice(top_idx)] = rng.choice([rat(rng), rng.choice(frees)])
     if rng.random() < 0.5:
         m[y] = rng.choice([rat(rng), x])
+    if psyms:
+        m[rng.choice(psyms)] = rng.choice([rat(rng), gen_poly(rng, others, 1, small=True)])
     xr.append({"kind": "map" + ("+index" if any(k in top_idx for k in m) else ""), "pairs": list(m.items())})
-    env = {s: Fraction(rng.randint(-4, 4), rng.choice([1, 2, 3])) for s in FREE + IDX}
+    env = {s: Fraction(rng.randint(-4, 4), rng.choice([1, 2, 3])) for s in FREE + IDX + POOLSYM}
     return {"term": term, "subs": subs, "xreplace": xr, "env": env, "dup": has_dup_index(term),
             "depth": depth_of(term), "top_idx": top_idx}
 
@@ -222,6 +305,31 @@ def shape_terms():
     add("ints and rationals mixed in one pool", PoolSum(f(i) + i**2, (i, (1, half, sp.Integer(2), -half))))
     add("no indices", PoolSum(f(x) + y))
     add("four indices", PoolSum(f(i, j) * k + z, (i, (1, 2)), (j, (0, 1)), (k, (1,)), (sp.Symbol("l"), (2, 3))))
+    # ---- pool values that are TERMS (HARDENING rule 1: numbers vs symbols): symbols only in a pool, in pool and
+    # summand, inner pools that depend on outer indices (inner summand with and without the outer index), compound values
+    n, mm = sp.Symbol("n"), sp.Symbol("m", integer=True)
+    add("symbol that occurs in a pool only", PoolSum(f(k) * x, (k, (0, 1, n))))
+    add("symbol in a pool and in the summand", PoolSum(y * f(k), (k, (0, 1, y))))
+    add("inner pool depends on the outer index, inner summand does not",
+        PoolSum(PoolSum(g(j), (j, (i, i + 10))), (i, (1, 2))))
+    add("inner pool depends on the outer index, inner summand too",
+        PoolSum(PoolSum(f(i, j), (j, (i, i + 10))), (i, (1, 2))))
+    add("chain of dependent pools, depth 3",
+        PoolSum(PoolSum(PoolSum(f(k), (k, (j, j + i))), (j, (i, 2 * i))), (i, (1, 2))))
+    add("dependent inner sum inside an Add and a Mul, pool also holds a free symbol",
+        PoolSum(x * PoolSum(g(j), (j, (i, n))) + i, (i, (1, 2))))
+    add("singleton pool holding a symbol (cleanup inserts it)", PoolSum(f(i, j), (i, (n,)), (j, (1, 2))))
+    add("singleton inner pool holding the outer index", PoolSum(PoolSum(f(j) * j, (j, (i,))), (i, (1, 2))))
+    add("pool of compound values", PoolSum(f(i) + i, (i, (x + y, 2 * x, x**2))))
+    add("pool of two equal symbols", PoolSum(f(i), (i, (n, n))))
+    add("unused index with a symbolic pool", PoolSum(x, (i, (n, mm))))
+    add("two indices, pools share a symbol that is absent from the summand",
+        PoolSum(f(i, j), (i, (n, 1)), (j, (n + 1, half))))
+    add("outer pool symbolic, inner pool mentions outer index and the same symbol",
+        PoolSum(PoolSum(g(j) * z, (j, (i, n))), (i, (n, 2))))
+    add("EXCLUDED (ill-formed): pool mentions an earlier index of the same sum", PoolSum(f(i, j), (i, (1, 2)), (j, (i, 4))))
+    add("EXCLUDED (ill-formed): pool mentions a symbol bound inside the summand",
+        PoolSum(PoolSum(f(i, j), (j, (1, 2))), (i, (j, 3))))
     inner = PoolSum(f(i) * x, (i, (1, 2)))
     add("inside an Add and a Mul", 3 * y * inner + inner**2 + x, inner)
     add("argument of an unevaluated node without attributes", Kallen(inner, y, 2), inner)
@@ -255,7 +363,7 @@ def _has_node(t) -> bool:
     if k in {"app", "idx"}:
         return any(_has_node(a) for a in t[2])
     if k == "psum":
-        return _has_node(t[1])
+        return _has_node(t[1]) or any(_has_node(v) for _, vals in t[2] for v in vals)
     return False
 
 
@@ -286,6 +394,9 @@ def correspondence(chk: common.Check, rng, n_cases: int, variant=(0, 1)) -> list
         c["real"], c["canon"] = real, canon
         cases.append(c)
         s = m1.show(canon)
+        # the model's own (decidable) hypothesis of the theorems classifies the case
+        lines.append(f"(wfsums {s})")
+        plan.append((ci, "wfsums", None, None))
         for op, fn in (("evaluate", _evaluate_all), ("doit", lambda r: r.doit()), ("cleanup", _cleanup_all)):
             if op in {"evaluate", "cleanup"} and canon[0] != "psum":
                 continue
@@ -312,6 +423,11 @@ def correspondence(chk: common.Check, rng, n_cases: int, variant=(0, 1)) -> list
     second_plan = []
     for (ci, op, sub, real_res), line in zip(plan, replies[1:]):
         c = cases[ci]
+        if op == "wfsums":
+            c["wf"] = line.strip() == "true"
+            if line.strip() not in {"true", "false"}:
+                bad.append({"op": op, "term": m1.show(c["canon"]), "why": "model error " + line.strip()})
+            continue
         model = m1.read_reply(line)
         chk.count(("case", ci, op) if (c["depth"] >= 2 or len(c["top_idx"]) >= 2) else None)
         rec = {"op": op, "term": m1.show(c["canon"]), "real_term": str(c["real"]),
@@ -336,20 +452,25 @@ def correspondence(chk: common.Check, rng, n_cases: int, variant=(0, 1)) -> list
             bad.append({**rec, "why": "results differ structurally", "real": str(real_res), "model": str(rebuilt)})
             continue
         # semantic tie: Lean denotation of the model's result vs exact value of the real unfolded result
-        # (a repeated index symbol has no cartesian-product denotation: excluded, counted)
-        if c["dup"] or c.get("has_node"):
+        # (only for results that satisfy the hypothesis `wfSums` of the theorems — a repeated index symbol, a pool that
+        # mentions a sibling index or a captured symbol have no cartesian-product denotation: excluded, counted)
+        if c.get("has_node"):
             continue
-        second.append(f"(evalat {line.strip()} {m1.show_env(c['env'])})")
+        second.append(f"(evalatwf {line.strip()} {m1.show_env(c['env'])})")
         second_plan.append((rec, c, real_res))
     # denotation of the original folded term as well
     for c in cases:
-        if c["dup"] or c.get("has_node"):
+        if c.get("has_node"):
             continue
-        second.append(f"(evalat {m1.show(c['canon'])} {m1.show_env(c['env'])})")
+        second.append(f"(evalatwf {m1.show(c['canon'])} {m1.show_env(c['env'])})")
         second_plan.append(({"op": "denotation", "term": m1.show(c["canon"]), "real_term": str(c["real"])}, c, c["real"]))
     replies2 = m1.run_driver(DRIVER, [lines[0], *second], DRIVER_MODULES)
     n_eval = 0
+    n_not_wf = 0
     for (rec, c, real_res), line in zip(second_plan, replies2[1:]):
+        if line.strip() == "nwf":
+            n_not_wf += 1
+            continue
         model_val = m1.read_reply(line)
         try:
             unfolded = real_res.doit()
@@ -364,6 +485,9 @@ def correspondence(chk: common.Check, rng, n_cases: int, variant=(0, 1)) -> list
     chk.count(None, n_eval)
     stats["cases"] = len(cases)
     stats["cases_with_repeated_index_symbol_(structural_comparison_only)"] = sum(1 for c in cases if c["dup"])
+    stats["cases_not_wfSums_(structural_comparison_only)"] = sum(1 for c in cases if not c.get("wf", True))
+    stats["result_terms_not_wfSums_(no_denotation_comparison)"] = n_not_wf
+    stats["denotation_comparisons"] = n_eval
     stats["requests"] = len(lines) - 1 + len(second)
     chk.info("input_distribution", stats)
     for c in cases[:3]:
